@@ -51,7 +51,11 @@ func (n *pgNamer) rootName(v ssa.Value) string {
 	if g, ok := v.(*ssa.Global); ok {
 		return "global:" + g.Name() // stable across namers
 	}
-	s := fmt.Sprintf("v%d", len(n.ids)+1)
+	// stable across namers of the same function: the SSA register name, qualified by its function
+	s := "%" + v.Name()
+	if in, isIn := v.(ssa.Instruction); isIn && in.Parent() != nil {
+		s = "%" + in.Parent().Name() + ":" + v.Name()
+	}
 	if p, ok := v.(*ssa.Parameter); ok {
 		for i, q := range n.fn.Params {
 			if q == p {
